@@ -49,10 +49,12 @@ def run_property(prop, tier, seed, jobs, keep=False, quiet=False):
     env.setdefault('PYTHONHASHSEED', '0')
     env['OMP_NUM_THREADS'] = env['OPENBLAS_NUM_THREADS'] = env['MKL_NUM_THREADS'] = '1'
     procs = []
+    # workloads derive many RandomState seeds as small multiples of the seed: keep it small (any integer is accepted)
+    wseed = abs(int(seed)) % 100003
     for s in range(jobs):
         out = os.path.join(work, 'shard%d.json' % s)
         log = open(os.path.join(work, 'shard%d.log' % s), 'w')
-        p = subprocess.Popen([PY, '-m', 'bctmon.worker', prop, tier, str(seed), str(s), str(jobs), out,
+        p = subprocess.Popen([PY, '-m', 'bctmon.worker', prop, tier, str(wseed), str(s), str(jobs), out,
                               str(case_timeout)], cwd=HERE, env=env, stdout=log, stderr=subprocess.STDOUT)
         procs.append((p, out, log))
     dead = []
